@@ -3,7 +3,91 @@ from vx import core
 from vx.core import Unit
 from vx.props import common
 
+from vx import v1types
 from vx.units import bound
+from vx.props import C05
+
+
+EVAL_STUBS = '''// ---- assumed callee contracts of Function::evaluate_bound (T5) ----
+// term iterator `&Function: IntoIterator<Item = (SortedIds, f64)>` (linear.rs / quadratic.rs / polynomial.rs into_iter, Box<dyn Iterator>): the (ids, coefficient)
+// pairs sum to the represented polynomial, coefficients are those of the message (finite when the message is), ids are ids of the function
+#[verifier::external_body] pub fn function_terms(f: &Function) -> (r: Vec<(SortedIds, F64)>)
+    ensures forall|m: Map<u64, F64>| #![trigger tsum(r@, r.len() as int, m)] fn_val(*f, m) == tsum(r@, r.len() as int, m),
+        fn_fin(*f) ==> forall|i: int| 0 <= i < r.len() ==> fin((#[trigger] r[i]).1),
+        forall|i: int, j: int| 0 <= i < r.len() && 0 <= j < r[i].0@.len() ==> fn_ids(*f).contains(#[trigger] r[i].0@[j]),
+        small_degree(*f) ==> forall|i: int| 0 <= i < r.len() ==> (#[trigger] r[i]).0@.len() < 256,
+{ unimplemented!() }
+impl SortedIds {
+    // Deref<Target=[u64]>::is_empty
+    #[verifier::external_body] pub fn is_empty(&self) -> (r: bool) ensures r == (self@.len() == 0) { unimplemented!() }
+    // SortedIds::chunks (itertools chunk_by over the sorted ids): (id, multiplicity) pairs whose powers multiply to the monomial
+    #[verifier::external_body] pub fn chunks(&self) -> (r: Vec<(u64, usize)>)
+        ensures forall|c: real, m: Map<u64, F64>| #![trigger chunk_val(c, r@, r.len() as int, m)] chunk_val(c, r@, r.len() as int, m) == mono_val(c, self@, self@.len() as int, m),
+            forall|i: int| 0 <= i < r.len() ==> 1 <= (#[trigger] r[i]).1 <= self@.len() && self@.contains(r[i].0),
+    { unimplemented!() }
+}
+'''
+
+
+def evaluate_bound():
+    return Unit('Function::evaluate_bound', 'v1_ext/function.rs', 'evaluate_bound', impl=r'impl Function \{', sig='pub fn evaluate_bound(&self, bounds: &Bounds) -> Bound',
+                wrap=('impl Function {', '}'), anyhow=False,
+                header='''#[verifier::loop_isolation(false)]
+pub fn evaluate_bound(&self, bounds: &Bounds) -> (r: Bound)
+    requires bounds_wf(bounds@), fn_fin(*self), small_degree(*self),
+    ensures r.wf(), forall|m: Map<u64, F64>| #![trigger fn_val(*self, m)] in_box(m, bounds@, fn_ids(*self)) ==> contains(r, fn_val(*self, m)),''',
+                rsubs=[(r'self\.into_iter\(\)', 'function_terms(self)', 1),
+                       (r'bounds\.get\(&id\.into\(\)\)\.cloned\(\)\.unwrap_or_default\(\)', 'bounds.get(&VariableID(id)).copied().unwrap_or(Bound::default())', 1)],
+                loops=[dict(kind='for', cont=True, rebind='(__e.0.vclone(), __e.1)', it='it_1', inv='''invariant
+                __i1 <= __h1.len(), bound.wf(),
+                forall|m: Map<u64, F64>| #![trigger tsum(__h1@, __i1 as int, m)] in_box(m, bounds@, fn_ids(*self)) ==> contains(bound, tsum(__h1@, __i1 as int, m)),
+            decreases __h1.len() - __i1''',
+                            body_proof=''' proof { assert(ids@ == __h1@[__i1 - 1].0@ && value == __h1@[__i1 - 1].1); }'''),
+                       dict(kind='for', rebind='(__e.0, __e.1)', it='it_2', inv='''invariant
+                    cur.wf(), 1 <= __i1 <= __h1.len(), ids@ == __h1@[__i1 - 1].0@, value == __h1@[__i1 - 1].1,
+                    forall|m: Map<u64, F64>| #![trigger chunk_val(1real, __h2@, it_2.index@ as int, m)] in_box(m, bounds@, fn_ids(*self)) ==> contains(cur, chunk_val(1real, __h2@, it_2.index@ as int, m)),''')],
+                proofs=[
+                    # skipped zero coefficient: the term contributes 0
+                    (('before', r'continue;\s*\}\s*if ids\.is_empty'), '''proof { assert forall|m: Map<u64, F64>| #![trigger tsum(__h1@, __i1 as int, m)] in_box(m, bounds@, fn_ids(*self)) implies contains(bound, tsum(__h1@, __i1 as int, m)) by {
+                    lemma_mono_zero(ids@, ids@.len() as int, m);
+                    assert(contains(bound, tsum(__h1@, (__i1 - 1) as int, m)));
+                } }
+                '''),
+                    # constant term
+                    (('before', r'bound \+= value;'), 'let ghost b0 = bound;\n                '),
+                    (('after', r'bound \+= value;'), '''
+                proof { assert forall|m: Map<u64, F64>| #![trigger tsum(__h1@, __i1 as int, m)] in_box(m, bounds@, fn_ids(*self)) implies contains(bound, tsum(__h1@, __i1 as int, m)) by {
+                    assert(contains(b0, tsum(__h1@, (__i1 - 1) as int, m)));
+                    assert(mono_val(rv(value), ids@, 0, m) == rv(value));
+                } }'''),
+                    # one chunk: x_id^exp lies in b.pow(exp)
+                    (('before', r'cur \*= b\.pow'), '''let ghost cur0 = cur; let ghost k = it_2.index@ as int;
+                proof { assert(__h2@[k] == (id, exp)); assert(ids@.contains(id)); let j = choose|j: int| 0 <= j < ids@.len() && ids@[j] == id;
+                    assert(fn_ids(*self).contains(__h1@[__i1 - 1].0@[j])); assert(exp < 256); assert(b.wf()); }
+                '''),
+                    (('after', r'cur \*= b\.pow\(exp as u8\);'), '''
+                proof { assert forall|m: Map<u64, F64>| #![trigger chunk_val(1real, __h2@, k + 1, m)] in_box(m, bounds@, fn_ids(*self)) implies contains(cur, chunk_val(1real, __h2@, k + 1, m)) by {
+                    assert(contains(cur0, chunk_val(1real, __h2@, k, m)));
+                    assert(fn_ids(*self).contains(id));
+                    assert(contains(b, sval(m, id)));
+                    assert(exp as u8 as nat == exp as nat);
+                } }'''),
+                    # the whole monomial
+                    (('before', r'bound \+= value \* cur;'), '''let ghost b0 = bound; let ghost n2 = __h2@.len() as int;
+            proof { assert(fin(value)); }
+            '''),
+                    (('after', r'bound \+= value \* cur;'), '''
+            proof { assert forall|m: Map<u64, F64>| #![trigger tsum(__h1@, __i1 as int, m)] in_box(m, bounds@, fn_ids(*self)) implies contains(bound, tsum(__h1@, __i1 as int, m)) by {
+                assert(contains(b0, tsum(__h1@, (__i1 - 1) as int, m)));
+                assert(contains(cur, chunk_val(1real, __h2@, n2, m)));
+                lemma_chunk_scale(rv(value), __h2@, n2, m);
+                assert(n2 == __h2.len() as int);
+                assert(chunk_val(rv(value), __h2@, __h2.len() as int, m) == mono_val(rv(value), ids@, ids@.len() as int, m));
+                assert(chunk_val(1real, __h2@, n2, m) * rv(value) == rv(value) * chunk_val(1real, __h2@, n2, m)) by(nonlinear_arith);
+            } }'''),
+                    (('before', r'bound\s*\}\s*$'), '''proof { assert forall|m: Map<u64, F64>| #![trigger fn_val(*self, m)] in_box(m, bounds@, fn_ids(*self)) implies contains(bound, fn_val(*self, m)) by {
+                assert(fn_val(*self, m) == tsum(__h1@, __h1.len() as int, m)); } }
+        ''')])
 
 
 def build(asm, tier):
@@ -11,16 +95,28 @@ def build(asm, tier):
     asm.raw('pub mod lib {\n' + common.LIB_USES)
     asm.file('prelude/f64_model.rs')
     asm.file('prelude/anyhow_model.rs')
+    asm.file('prelude/std_helpers.rs')
     asm.raw(common.ZERO_TRAIT)
+    t, enums = v1types.v1_module(asm.rules)
+    asm.extracted(t, 'ommx.v1.rs message types')
     bound.types(asm)
+    C05.newtypes(asm)
     asm.file('spec/bound_spec.rs')
+    asm.file('spec/poly_value.rs')
+    asm.file('spec/box_spec.rs')
+    asm.file('spec/evalbound_spec.rs')
     asm.raw('''pub open spec fn contains_tol(b: Bound, x: real, a: real) -> bool {
     xr_le(xr_sub(b.lower@, XR::Fin(a)), XR::Fin(x)) && xr_le(XR::Fin(x), xr_add(b.upper@, XR::Fin(a)))
 }
 ''')
     for u in bound.units():
         asm.unit(u)
-    asm.raw('} // mod lib\n')
+    asm.raw('} // mod lib\npub mod units {\n' + common.UNITS_USES + 'broadcast use super::lib::ax_variable_id_key_model;\n')
+    asm.raw(EVAL_STUBS, 'assumed callee contracts')
+    for n in ('term iterator of &Function (function_terms)', 'SortedIds::chunks', 'SortedIds::is_empty'):
+        asm.stubs.append(dict(unit=n, proved_in='assumed (Box<dyn Iterator> / itertools chunk_by: outside the dialect); exercised by the bounded stand-in'))
+    asm.unit(evaluate_bound())
+    asm.raw('} // mod units\n')
     asm.guard(common.guard_fn('c16_axioms', 'ax_floor(0real); ax_ceil(0real); ax_floor(1real / 2real); ax_ceil(1real / 2real);', uses='use super::lib::*;'), 'vacuity: prelude axioms')
     asm.guard('''pub mod guard_req { use vstd::prelude::*; use super::lib::*;
 proof fn vacuity_as_integer_bound_requires(b: Bound) requires b.wf(), exists|k: real| contains_int(b, k) { assert(false); }
